@@ -34,7 +34,7 @@ def run(rep):
     target_time(rep, mir, L)
     from .pool import pool_scripts
     from ..driver import parts
-    parts(rep, [lambda: pool_scripts(rep, mir, L, 5 if rep.tier == 'quick' else 7), lambda: chain_draw(rep, mir, L)])
+    parts(rep, [lambda: pool_scripts(rep, mir, L, 5 if rep.tier == 'quick' else 7), lambda: chain_draw(rep, mir, L), lambda: native_tree_stats(rep)])
 
 def merge_report(rep, sub):
     rep.obligations += sub.obligations; rep.covers += sub.covers; rep.violations += sub.violations; rep.errors += sub.errors
@@ -178,3 +178,29 @@ def chain_draw(rep, mir, L):
     rep.paths += n; rep.absorb_vm(vm)
     if bad: rep.violated('C03.4 NutsChain::draw bookkeeping', 'chain_draw', 'NutsChain::draw: %s' % (bad[0],), model={'problems': [str(b)[:300] for b in bad[:5]]})
     else: rep.holds('C03.4 NutsChain::draw: position/adapt/next start/last_info all refer to the state and info the tree returned; draw counter +1; Progress fields from them; tree Err leaves the chain unchanged (%d paths)' % n)
+
+
+def native_tree_stats(rep):
+    """model validation through the real build (not a deciding step): DiagNuts chains with a fixed step size over a matrix of maxdepth / mindepth / step
+    sizes must show, draw by draw, what the tree result implies: depth <= maxdepth, 2^depth - 1 <= steps <= 2^(depth+1) - 1, |index| <= 2^depth - 1,
+    index 0 iff the position did not change, maxdepth flag only at depth = maxdepth, depth >= mindepth unless the draw diverged"""
+    from .. import native
+    cfgs = [(1, 0, 0.9), (3, 1, 0.9), (4, 0, 0.3)] if rep.tier == 'quick' else [(D, mn, st) for D in (1, 2, 3, 5) for mn in (0, 1, 2) if mn <= D for st in (0.3, 0.9, 1.6)]
+    n = 0; bad = []
+    for (D, mn, st) in cfgs:
+        r = native.run('tree_stats', {'maxdepth': D, 'mindepth': mn, 'step': st, 'num_draws': 150, 'seed': 11 + D}, timeout=120)
+        if not r or not r.get('confirmed'): rep.notes.append('C03.V native tree statistics unavailable for %s: %s' % ((D, mn, st), str(r)[:100])); continue
+        for i in range(len(r['depth'])):
+            d, stp, idx, flag, div, moved = r['depth'][i], r['num_steps'][i], r['index_in_trajectory'][i], r['maxdepth_reached'][i], r['diverging'][i], r['moved'][i]; n += 1
+            probs = []
+            if d > D: probs.append('depth > maxdepth')
+            if not (2 ** d - 1 <= stp <= 2 ** (d + 1) - 1) and not div: probs.append('steps outside [2^depth - 1, 2^(depth+1) - 1]')
+            if abs(idx) > 2 ** d - 1: probs.append('|index| > 2^depth - 1')
+            if (idx == 0) != (not moved): probs.append('index 0 does not coincide with an unchanged position')
+            if flag and d != D: probs.append('maxdepth flag below maxdepth')
+            if not div and d < mn: probs.append('stopped below mindepth without a divergence')
+            if probs: bad.append({'config': (D, mn, st), 'draw': i, 'problems': probs, 'depth': d, 'steps': stp, 'index': idx}); break
+    rep.validated += n
+    if bad: rep.validation_mismatch += bad; rep.errors.append('C03.V a native run contradicts the tree result: %s' % str(bad[0])[:300])
+    elif n: rep.notes.append('C03.V %d draws of native fixed-step DiagNuts chains (%d configurations) satisfy the depth / step-count / index bounds and flag rules decided symbolically' % (n, len(cfgs)))
+    rep.cover('C03.V native tree statistics compared', n > 0)
